@@ -107,6 +107,42 @@ NoDivisorFrom(n, d) == d * d > n \/ (n % d # 0 /\ NoDivisorFrom(n, d + 1))
 IsPrimeN(n) == n >= 2 /\ NoDivisorFrom(n, 2)
 PrimePi(n) == Cardinality({m \in 2..n : IsPrimeN(m)})
 
+(*************************** closed forms used by C22, C26-C28 *************)
+\* terminating hypergeometric sum  sum_{k=0}^{N} prod (a_i)_k / prod (b_j)_k * z^k / k!   (running term)
+HypTerm(as, bs, z, N) ==
+  FoldLeft(LAMBDA st, k :          \* st = <<sum, term_k>>; term_{k+1} = term_k * prod(a_i + k) / prod(b_j + k) * z / (k+1)
+             LET num == FoldLeft(LAMBDA acc, a : QMul(acc, QAdd(a, QNat(k))), QOne, as)
+                 den == FoldLeft(LAMBDA acc, b : QMul(acc, QAdd(b, QNat(k))), QNat(k + 1), bs)
+                 t2 == QDiv(QMul(QMul(st[2], num), z), den)
+             IN <<QAdd(st[1], t2), t2>>,
+           <<QOne, QOne>>, IRange(0, N - 1))[1]
+\* orthogonal polynomials of integer degree by their three-term recurrences
+\* (k+1) P_{k+1} = (A_k x + B_k) P_k - C_k P_{k-1}, divided by D_k = k+1 or 1
+Ortho(fam, n, x, a) ==
+  LET p1 == CASE fam = "legendre" -> x [] fam = "chebyt" -> x [] fam = "chebyu" -> QMul(QNat(2), x)
+              [] fam = "hermite" -> QMul(QNat(2), x) [] fam = "laguerre" -> QSub(QAdd(QOne, a), x)
+              [] fam = "gegenbauer" -> QMul(QMul(QNat(2), a), x)
+      step(k, pk, pm) ==           \* P_{k+1} from P_k, P_{k-1}
+        CASE fam = "legendre" -> QDiv(QSub(QMul(QMul(QNat(2 * k + 1), x), pk), QMul(QNat(k), pm)), QNat(k + 1))
+          [] fam = "chebyt" -> QSub(QMul(QMul(QNat(2), x), pk), pm)
+          [] fam = "chebyu" -> QSub(QMul(QMul(QNat(2), x), pk), pm)
+          [] fam = "hermite" -> QSub(QMul(QMul(QNat(2), x), pk), QMul(QNat(2 * k), pm))
+          [] fam = "laguerre" -> QDiv(QSub(QMul(QSub(QAdd(QNat(2 * k + 1), a), x), pk), QMul(QAdd(QNat(k), a), pm)), QNat(k + 1))
+          [] fam = "gegenbauer" -> QDiv(QSub(QMul(QMul(QMul(QNat(2), QAdd(QNat(k), a)), x), pk),
+                                             QMul(QSub(QAdd(QNat(k), QMul(QNat(2), a)), QOne), pm)), QNat(k + 1))
+  IN IF n = 0 THEN QOne
+     ELSE FoldLeft(LAMBDA st, k : <<step(k, st[1], st[2]), st[1]>>, <<p1, QOne>>, IRange(1, n - 1))[1]
+\* integral over [a, b] of sum c_k x^k  (cs low -> high)
+PolyInt(cs, a, b) ==
+  FoldLeft(LAMBDA acc, k : QAdd(acc, QMul(cs[k], QDiv(QSub(QPow(b, k), QPow(a, k)), QNat(k)))), QZero, IRange(1, Len(cs)))
+\* n-th derivative at x of sum c_k x^k
+PolyDer(cs, x, n) ==
+  FoldLeft(LAMBDA acc, k :      \* k = index 1..Len: degree d = k-1
+             LET d == k - 1 IN
+             IF d < n THEN acc
+             ELSE QAdd(acc, QMul(QMul(cs[k], QInt(ZProdRange(d - n + 1, d))), QPow(x, d - n))),
+           QZero, IRange(1, Len(cs)))
+
 (*************************** expression evaluation *************************)
 RECURSIVE Ev(_, _)
 EvSeq(es, k) == Tup([i \in 1..Len(es) |-> Ev(es[i], k)])
@@ -131,6 +167,10 @@ Ev(e, k) ==
                        IN FoldRight(LAMBDA c, acc : QAdd(QMul(acc, x), c), cs, QZero)
     [] e.t = "sumk" -> FoldLeft(LAMBDA acc, j : QAdd(acc, Ev(e.body, j)), QZero, IRange(e.lo, e.hi))
     [] e.t = "prodk" -> FoldLeft(LAMBDA acc, j : QMul(acc, Ev(e.body, j)), QOne, IRange(e.lo, e.hi))
+    [] e.t = "hypterm" -> HypTerm(EvSeq(e.as, k), EvSeq(e.bs, k), Ev(e.z, k), e.n)
+    [] e.t = "ortho" -> Ortho(e.fam, e.n, Ev(e.x, k), Ev(e.par, k))
+    [] e.t = "polyint" -> PolyInt(EvSeq(e.c, k), Ev(e.a[1], k), Ev(e.a[2], k))
+    [] e.t = "polyder" -> PolyDer(EvSeq(e.c, k), Ev(e.x, k), e.n)
     [] e.t = "fact" -> QInt(Fact(e.n))
     [] e.t = "fact2" -> QInt(Fact2(e.n))
     [] e.t = "fib" -> QInt(Fib(e.n))
